@@ -198,6 +198,254 @@ static void do_xform(const J& g, W& w) {
     w.kb("lat", ok);
 }
 
+// ------------------------------------------------------------------ hierarchies (C06 C09)
+static Polygon* make_line(const char* kind) {
+    Polygon* p = (Polygon*)allocate_clear(sizeof(Polygon));
+    p->tag = TP;
+    if (!strcmp(kind, "diag")) {
+        p->point_array.append(Vec2{0, 3});
+        p->point_array.append(Vec2{1, 2});
+        p->point_array.append(Vec2{3, 0});
+    } else if (!strcmp(kind, "hline")) {
+        p->point_array.append(Vec2{0, 0});
+        p->point_array.append(Vec2{2, 0});
+        p->point_array.append(Vec2{5, 0});
+    } else {
+        p->point_array.append(Vec2{0, 0});
+        p->point_array.append(Vec2{0, 4});
+    }
+    return p;
+}
+
+struct Hier {
+    std::map<std::string, Cell*> cells;
+};
+
+static void add_shape(Cell* cell, const J& sh) {
+    const std::string& kind = sh["kind"].s();
+    Vec2 at = Q.u2(sh["at"]);
+    if (kind == "polygon" || kind == "diag" || kind == "hline" || kind == "vline") {
+        Polygon* p = kind == "polygon" ? make_polygon(TP) : make_line(kind.c_str());
+        p->translate(at);
+        set_repetition(p->repetition, sh["rep"], Q);
+        cell->polygon_array.append(p);
+    } else if (kind == "flexpath") {
+        FlexPath* f = make_flexpath(T0, T1);
+        f->translate(at);
+        set_repetition(f->repetition, sh["rep"], Q);
+        cell->flexpath_array.append(f);
+    } else if (kind == "robustpath") {
+        RobustPath* r = make_robustpath(T0, T1);
+        r->translate(at);
+        set_repetition(r->repetition, sh["rep"], Q);
+        cell->robustpath_array.append(r);
+    } else if (kind == "label") {
+        Label* l = make_label(TL);
+        l->origin = at;
+        set_repetition(l->repetition, sh["rep"], Q);
+        cell->label_array.append(l);
+    }
+}
+
+static void build_hier(Hier& H, const J& cells) {
+    for (size_t i = 0; i < cells.size(); i++) {
+        Cell* c = (Cell*)allocate_clear(sizeof(Cell));
+        c->name = copy_string(cells[i]["name"].s().c_str(), NULL);
+        H.cells[cells[i]["name"].s()] = c;
+        for (size_t k = 0; k < cells[i]["shapes"].size(); k++) add_shape(c, cells[i]["shapes"][k]);
+    }
+    for (size_t i = 0; i < cells.size(); i++) {
+        Cell* c = H.cells[cells[i]["name"].s()];
+        const J& refs = cells[i]["refs"];
+        for (size_t k = 0; k < refs.size(); k++) {
+            const J& r = refs[k];
+            Reference* ref = (Reference*)allocate_clear(sizeof(Reference));
+            if (H.cells.count(r["to"].s())) ref->init(H.cells[r["to"].s()]);
+            else ref->init(r["to"].s().c_str());
+            ref->magnification = mag_value(r["mag"]);
+            ref->x_reflection = r["refl"].t();
+            ref->rotation = rot_angle(r["rot"]);
+            ref->origin = Q.u2(r["origin"]);
+            set_repetition(ref->repetition, r["rep"], Q);
+            c->reference_array.append(ref);
+        }
+    }
+}
+
+// base outlines of the factory shapes (untranslated, no repetition)
+static void log_base(W& w, bool& ok) {
+    w.key("base").begin_obj();
+    for (const char* kind : {"polygon", "flexpath", "robustpath", "label", "diag", "hline", "vline"}) {
+        Cell tmp = {};
+        W sh;
+        std::string js = std::string("{\"kind\":\"") + kind + "\",\"rep\":{\"type\":\"none\"},\"at\":[0,0]}";
+        J j = jparse(js);
+        add_shape(&tmp, j);
+        w.key(kind).begin_arr();
+        Array<Polygon*> a = {};
+        tmp.get_polygons(false, true, 0, false, 0, a);
+        w_polys_parts(w, a, ok);
+        free_polys(a);
+        for (uint64_t i = 0; i < tmp.label_array.count; i++) {
+            w.begin_obj().kv("tag", tagid(tmp.label_array[i]->tag)).key("ring").begin_arr();
+            w.begin_arr().i(lat(tmp.label_array[i]->origin.x, Q.q, ok)).i(lat(tmp.label_array[i]->origin.y, Q.q, ok)).end_arr();
+            w.end_arr().end_obj();
+        }
+        w.end_arr();
+    }
+    w.end_obj();
+}
+
+template <class T>
+static void log_path_items(W& w, Array<T*>& arr, bool& ok) {
+    w.key("items").begin_arr();
+    for (uint64_t i = 0; i < arr.count; i++) {
+        w.begin_obj();
+        w_offsets(w, "offs", arr[i]->repetition, ok);
+        T tmp = {};
+        tmp.copy_from(*arr[i]);
+        tmp.repetition.clear();
+        Array<Polygon*> a = {};
+        tmp.to_polygons(false, 0, a);
+        w.key("parts").begin_arr();
+        w_polys_parts(w, a, ok);
+        w.end_arr();
+        free_polys(a);
+        w.end_obj();
+    }
+    w.end_arr();
+}
+
+static void log_box(W& w, Vec2 mn, Vec2 mx, bool& ok) {
+    if (mn.x > mx.x) {
+        w.kb("empty", true).key("box").begin_arr().end_arr();
+    } else {
+        w.kb("empty", false).key("box").begin_arr();
+        w.i(lat(mn.x, Q.q, ok)).i(lat(mn.y, Q.q, ok)).i(lat(mx.x, Q.q, ok)).i(lat(mx.y, Q.q, ok)).end_arr();
+    }
+}
+static void log_hull(W& w, Array<Vec2>& h, bool& ok) {
+    w.key("hull");
+    w_ring(w, h, ok);
+}
+
+static void do_hier(const J& g, W& w) {
+    Hier H;
+    build_hier(H, g["cells"]);
+    Cell* top = H.cells[g["top"].s()];
+    bool ok = true;
+    log_base(w, ok);
+    Map<GeometryInfo> cache = {};
+    auto clear_cache = [&]() {
+        for (MapItem<GeometryInfo>* it = cache.next(NULL); it; it = cache.next(it)) it->value.clear();
+        cache.clear();
+    };
+    w.key("steps").begin_arr();
+    for (size_t si = 0; si < g["steps"].size(); si++) {
+        const J& st = g["steps"][si];
+        const std::string& s = st["s"].s();
+        g_shared->phase = (int64_t)si;
+        w.begin_obj().ks("s", s);
+        if (s == "get") {
+            const std::string& what = st["what"].s();
+            bool apply = st["apply"].t();
+            int64_t depth = st["depth"].i();
+            bool filter = st["filter"].i() >= 0;
+            Tag tag = make_tag((uint32_t)(st["filter"].i() / 100), (uint32_t)(st["filter"].i() % 100));
+            if (what == "polygons" || what == "polygons_paths") {
+                Array<Polygon*> a = {};
+                top->get_polygons(apply, what == "polygons_paths", depth, filter, tag, a);
+                w.key("items").begin_arr();
+                for (uint64_t i = 0; i < a.count; i++) {
+                    w.begin_obj();
+                    w_offsets(w, "offs", a[i]->repetition, ok);
+                    w.key("parts").begin_arr();
+                    w.begin_obj().kv("tag", tagid(a[i]->tag)).key("ring");
+                    w_ring(w, a[i]->point_array, ok);
+                    w.end_obj().end_arr().end_obj();
+                }
+                w.end_arr();
+                free_polys(a);
+            } else if (what == "flexpaths") {
+                Array<FlexPath*> a = {};
+                top->get_flexpaths(apply, depth, filter, tag, a);
+                log_path_items<FlexPath>(w, a, ok);
+                a.clear();
+            } else if (what == "robustpaths") {
+                Array<RobustPath*> a = {};
+                top->get_robustpaths(apply, depth, filter, tag, a);
+                log_path_items<RobustPath>(w, a, ok);
+                a.clear();
+            } else if (what == "labels") {
+                Array<Label*> a = {};
+                top->get_labels(apply, depth, filter, tag, a);
+                w.key("items").begin_arr();
+                for (uint64_t i = 0; i < a.count; i++) {
+                    w.begin_obj();
+                    w_offsets(w, "offs", a[i]->repetition, ok);
+                    w.key("parts").begin_arr().begin_obj().kv("tag", tagid(a[i]->tag)).key("ring").begin_arr();
+                    w.begin_arr().i(lat(a[i]->origin.x, Q.q, ok)).i(lat(a[i]->origin.y, Q.q, ok)).end_arr();
+                    w.end_arr().end_obj().end_arr().end_obj();
+                }
+                w.end_arr();
+                a.clear();
+            }
+        } else if (s == "bbox") {
+            Vec2 mn, mx;
+            top->bounding_box(mn, mx);
+            log_box(w, mn, mx, ok);
+        } else if (s == "bbox_c") {
+            GeometryInfo info = top->bounding_box(cache);
+            log_box(w, info.bounding_box_min, info.bounding_box_max, ok);
+        } else if (s == "hull") {
+            Array<Vec2> h = {};
+            top->convex_hull(h);
+            log_hull(w, h, ok);
+            h.clear();
+        } else if (s == "hull_c") {
+            GeometryInfo info = top->convex_hull(cache);
+            log_hull(w, info.convex_hull, ok);
+        } else if (s == "ref_bbox") {
+            Vec2 mn, mx;
+            top->reference_array[0]->bounding_box(mn, mx);
+            log_box(w, mn, mx, ok);
+        } else if (s == "ref_hull") {
+            Array<Vec2> h = {};
+            top->reference_array[0]->convex_hull(h);
+            log_hull(w, h, ok);
+            h.clear();
+        } else if (s == "flatten_apply" || s == "flatten_keep") {
+            clear_cache();
+            Array<Reference*> removed = {};
+            top->flatten(s == "flatten_apply", removed);
+            w.kv("removed", (int64_t)removed.count);
+            w.kv("refs_left", (int64_t)top->reference_array.count);
+            removed.clear();
+        } else if (s == "copy_mutate") {
+            // a deep copy must be independent of its source: wreck the copy
+            Cell cp = {};
+            cp.copy_from(*top, "COPY", true);
+            for (uint64_t i = 0; i < cp.polygon_array.count; i++) {
+                cp.polygon_array[i]->translate(Vec2{100, 100});
+                cp.polygon_array[i]->repetition.clear();
+                cp.polygon_array[i]->tag = make_tag(9, 9);
+            }
+            for (uint64_t i = 0; i < cp.flexpath_array.count; i++) cp.flexpath_array[i]->translate(Vec2{50, 50});
+            for (uint64_t i = 0; i < cp.robustpath_array.count; i++) cp.robustpath_array[i]->translate(Vec2{50, 50});
+            for (uint64_t i = 0; i < cp.label_array.count; i++) cp.label_array[i]->origin = Vec2{77, 77};
+            for (uint64_t i = 0; i < cp.reference_array.count; i++) {
+                cp.reference_array[i]->origin = Vec2{-40, -40};
+                cp.reference_array[i]->repetition.clear();
+                cp.reference_array[i]->rotation += 1.0;
+            }
+            w.kv("copied", (int64_t)(cp.polygon_array.count + cp.reference_array.count));
+        }
+        w.end_obj();
+    }
+    w.end_arr();
+    w.kb("lat", ok);
+}
+
 int main(int argc, char** argv) {
     // h_hier <gen.ndjson> <obs.ndjson> <Q>
     if (argc < 4) return 2;
@@ -210,6 +458,7 @@ int main(int argc, char** argv) {
         w.begin_obj().ks("e", g["k"].s()).key("g").raw(line);
         const std::string& k = g["k"].s();
         if (k == "xform") do_xform(g, w);
+        else if (k == "hier") do_hier(g, w);
         w.end_obj();
         fputs(w.s.c_str(), out);
         fputc('\n', out);
